@@ -724,7 +724,9 @@ def getVariants (s : Src) : Nat → Bool → List (Variant Span) → Nat → R (
       let hasDefault' := hasDefault || dflt
       let (p2, open_) := takeByteIf s p1 91
       if !open_ then
-        if hasDefault' then .ok acc p2 else .err (mkErr .missingDefaultVariant p2) p2
+        -- a `*` must introduce a variant; on its own it is not a default
+        if dflt then .err (mkErr (.expectedToken 91) p2) p2
+        else if hasDefault' then .ok acc p2 else .err (mkErr .missingDefaultVariant p2) p2
       else
         -- get_variant_key
         let p3 := skipBlank s p2
